@@ -13,6 +13,7 @@ import (
 	"fmt"
 	"os"
 	"sync"
+	"sync/atomic"
 	"time"
 
 	"github.com/safing/portbase/log"
@@ -37,6 +38,7 @@ type script struct {
 	Policy    []string `json:"policy"`
 	Burst     bool     `json:"burst"`  // free-running burst: functions hold HoldMs instead of waiting at a gate
 	HoldMs    int      `json:"holdMs"`
+	Storm     int      `json:"storm"` // rounds of a signalled microtask whose done function is called by 4 goroutines at once
 }
 
 var (
@@ -219,7 +221,7 @@ func main() {
 		os.Exit(2)
 	}
 	maxDelay := 10 * time.Second
-	if sc.Burst {
+	if sc.Burst || sc.Storm > 0 {
 		maxDelay = 10 * time.Minute
 		sch.Free()
 	}
@@ -251,6 +253,39 @@ func main() {
 		}
 	}
 	sch.Free()
+	// a done function "takes effect once no matter how often it is called": also when several goroutines call
+	// it at the same instant (nothing in its documentation restricts it to one caller)
+	for r := 0; r < sc.Storm; r++ {
+		var done func()
+		switch r % 3 {
+		case 0:
+			done = modM.SignalHighPriorityMicroTask()
+		case 1:
+			done = modM.SignalMicroTask(maxDelay)
+		default:
+			done = modM.SignalLowPriorityMicroTask(maxDelay)
+		}
+		var ready, start int32
+		var sw sync.WaitGroup
+		for g := 0; g < 4; g++ {
+			sw.Add(1)
+			go func() {
+				defer sw.Done()
+				atomic.AddInt32(&ready, 1)
+				for atomic.LoadInt32(&start) == 0 {
+				}
+				done()
+			}()
+		}
+		for atomic.LoadInt32(&ready) < 4 {
+			time.Sleep(5 * time.Microsecond)
+		}
+		atomic.StoreInt32(&start, 1)
+		sw.Wait()
+	}
+	if sc.Storm > 0 {
+		emit(map[string]any{"e": "note", "point": "storm", "rounds": sc.Storm})
+	}
 	fin := make(chan struct{})
 	go func() { wg.Wait(); close(fin) }()
 	select {
@@ -262,6 +297,37 @@ func main() {
 	}
 	time.Sleep(80 * time.Millisecond) // let the scheduler drain signals of timed-out requests
 	emit(map[string]any{"e": "final", "modCount": modules.GetStatus().Modules["M"].MicroTasks})
+
+	// idle probes: nothing runs and nothing waits (the scheduler is parked); a single microtask of each
+	// waiting priority must be admitted at once, whichever variant submits it
+	for _, kind := range []string{"low", "siglow", "med", "startlow"} {
+		time.Sleep(30 * time.Millisecond)
+		p0 := time.Now()
+		got := make(chan int, 1)
+		fn := func(context.Context) error {
+			got <- int(time.Since(p0) / time.Millisecond)
+			return nil
+		}
+		switch kind {
+		case "low":
+			_ = modM.RunLowPriorityMicroTask("idle-probe", 3*time.Second, fn)
+		case "med":
+			_ = modM.RunMicroTask("idle-probe", 3*time.Second, fn)
+		case "startlow":
+			modM.StartLowPriorityMicroTask("idle-probe", 3*time.Second, fn)
+		default:
+			done := modM.SignalLowPriorityMicroTask(3 * time.Second)
+			_ = fn(nil)
+			done()
+		}
+		ms := 5000
+		select {
+		case ms = <-got:
+		case <-time.After(5 * time.Second):
+		}
+		emit(map[string]any{"e": "idleprobe", "kind": kind, "ms": ms})
+	}
+	time.Sleep(30 * time.Millisecond)
 
 	// probes: `limit` microtasks submitted together must all be admitted at once, one more must wait
 	n := sc.Threshold
